@@ -4,7 +4,7 @@
 # our checks against it.  Source: /tmp/seed/out-<ID>, /tmp/seed/wt-<ID>.
 set -u
 ID="$1"; shift
-CHECKS="${*:-$ID}"
+CHECKS="${*:-${ID%b}}"
 OUT=/tmp/seed/out-$ID; WT=/tmp/seed/wt-$ID
 [ -f "$OUT/patch.diff" ] || { echo "no patch for $ID"; exit 2; }
 echo "== patch: $(grep -c '^[-+][^-+]' $OUT/patch.diff) changed lines in $(grep -c '^diff' $OUT/patch.diff) file(s)"
